@@ -51,9 +51,10 @@ Definition phase_ok (i : inventory) (p : phase_inv) : Prop :=
 (** instructions of suite sections: documented by the section itself or by the phase it refers to *)
 Definition suite_ok (i : inventory) (s : suite_inv) : Prop :=
   agree (si_accepted s) (suite_documented i s) /\
-  forall n, In n (si_accepted s) ->
+  (forall n, In n (si_accepted s) ->
     has_successful_run (inv_requests i) (request_for_suite_instruction (inv_kw i) (si_name s) n) \/
-    exists ph, In ph (si_corresponds s) /\ has_successful_run (inv_requests i) (request_for_instruction ph n).
+    exists ph, In ph (si_corresponds s) /\ has_successful_run (inv_requests i) (request_for_instruction ph n)) /\
+  (forall m, In m (si_modes s) -> mode_ok (suite_documented i s) m).
 
 Definition entity_ok (i : inventory) (e : entity_inv) : Prop :=
   agree (ei_accepted e) (ei_help_struct e) /\
@@ -101,7 +102,8 @@ Definition suite_okb (i : inventory) (s : suite_inv) : bool :=
   forallb (fun n => has_successful_runb (inv_requests i) (request_for_suite_instruction (inv_kw i) (si_name s) n)
                     || existsb (fun ph => has_successful_runb (inv_requests i) (request_for_instruction ph n))
                                (si_corresponds s))
-          (si_accepted s).
+          (si_accepted s) &&
+  forallb (mode_okb (suite_documented i s)) (si_modes s).
 
 Definition entity_okb (i : inventory) (e : entity_inv) : bool :=
   agreeb (ei_accepted e) (ei_help_struct e) &&
@@ -129,7 +131,7 @@ Definition phase_tieb (i : inventory) (p : phase_inv) : bool :=
    then forallb (fun c => Bool.eqb (parser_accepts d c) (mem c (pi_accepted p))) (inv_candidates i)
    else match pi_accepted p with [] => true | _ => false end) &&
   subsetb (pi_accepted p) (inv_candidates i) &&
-  forallb (fun m => subsetb (mo_probed m) (pi_accepted p) && subsetb (mo_accepted m) (mo_probed m)) (pi_modes p).
+  forallb (fun m => subsetb (mo_accepted m) (mo_probed m)) (pi_modes p).
 
 Definition suite_tieb (i : inventory) (s : suite_inv) : bool :=
   let d := obs_dict (si_own_dict s) in
@@ -196,7 +198,8 @@ Inductive case :=
 | CHref (h : string) (obs_count : nat)
 | CTarget (x : cross_ref) (obs_anchor : string)
 | CModeInstr (mode phase name : string) (obs_accepted : bool)
-| CModeEntity (mode type name : string) (obs_accepted : bool).
+| CModeEntity (mode type name : string) (obs_accepted : bool)
+| CModeSuite (mode section name : string) (obs_accepted : bool).
 
 Definition request_eqb (x y : request) : bool :=
   match x, y with
@@ -301,6 +304,16 @@ Definition check_case (i : inventory) (c : case) : bool * bool :=
           match find (fun m => String.eqb (mo_mode m) mode) (ei_modes e) with
           | Some m => (Bool.eqb obs_accepted (mem name (mo_accepted m)) && mem name (mo_probed m),
                        Bool.eqb obs_accepted (mem name (ei_help_struct e)))
+          | None => (false, false)
+          end
+      | None => (false, false)
+      end
+  | CModeSuite mode section name obs_accepted =>
+      match find_suite_section i section with
+      | Some s =>
+          match find (fun m => String.eqb (mo_mode m) mode) (si_modes s) with
+          | Some m => (Bool.eqb obs_accepted (mem name (mo_accepted m)) && mem name (mo_probed m),
+                       Bool.eqb obs_accepted (mem name (suite_documented i s)))
           | None => (false, false)
           end
       | None => (false, false)
